@@ -1,0 +1,415 @@
+//go:build verif
+
+// Contracts for package cbe, read as text by the verification-condition generator in /verif.
+// This file contains no code; with the build tag off it is not part of the build at all.
+//
+// Ghost state (declared in /verif/contracts/trusted/io.ct): out[0..outLen) are the bytes the
+// destination io.Writer has accepted so far; wfailed is set once a Write returned an error.
+// Spec functions named cbe.* are the CBE layouts of /verif/spec/cbe.spec.
+
+package cbe
+
+//@ const_global isPlane7fArray, arrayTypeToCBEType, cbePlane7fTypeToArrayType, arrayInfo, ctimeToCBEType
+
+//@ spec WriterOK(w *Writer) bool = len(w.Buffer) >= 32 && w.writer != nil && w.stringWriter != nil
+//@ spec EncoderOK(e *Encoder) bool = WriterOK(e.writer)
+//@ spec Frame(o array[uint64]byte, o0 array[uint64]byte, n uint64) bool = forall j uint64 :: j < n ==> o[j] == o0[j]
+
+// Everything on the write path: needs a usable writer, appends to out, leaves earlier output
+// alone, and (C29) returns normally only if no write failed / panics only if one did.
+//@ macro WPATH(w)
+//@   requires WriterOK(w) && !wfailed && outLen <= 0x10000000000
+//@   modifies out, outLen, wfailed, mem(w.Buffer)
+//@   ensures !wfailed
+//@   ensures Frame(out, old(out), old(outLen))
+//@   ensures outLen <= 0x10000000000
+//@   xensures wfailed
+
+// ---------------------------------------------------------------------------------------------
+// Writer
+
+//@ func (*Writer).writeBytes
+//@   requires WriterOK(_this) && !wfailed && outLen <= 0x10000000000
+//@   modifies out, outLen, wfailed
+//@   ensures outLen == old(outLen) + uint64(len(b))
+//@   ensures forall i uint64 :: i < uint64(len(b)) ==> out[old(outLen)+i] == b[i]
+//@   ensures Frame(out, old(out), old(outLen))
+//@   ensures !wfailed
+//@   ensures outLen <= 0x10000000000
+//@   xensures wfailed
+
+//@ func (*Writer).WriteBytes
+//@   requires WriterOK(_this) && !wfailed && outLen <= 0x10000000000
+//@   modifies out, outLen, wfailed
+//@   ensures outLen == old(outLen) + uint64(len(b))
+//@   ensures forall i uint64 :: i < uint64(len(b)) ==> out[old(outLen)+i] == b[i]
+//@   ensures Frame(out, old(out), old(outLen))
+//@   ensures !wfailed
+//@   ensures outLen <= 0x10000000000
+//@   xensures wfailed
+
+//@ func (*Writer).WriteString
+//@   requires WriterOK(_this) && !wfailed && outLen <= 0x10000000000
+//@   modifies out, outLen, wfailed
+//@   ensures outLen == old(outLen) + uint64(len(str))
+//@   ensures forall i uint64 :: i < uint64(len(str)) ==> out[old(outLen)+i] == str[i]
+//@   ensures Frame(out, old(out), old(outLen))
+//@   ensures !wfailed
+//@   ensures outLen <= 0x10000000000
+//@   xensures wfailed
+
+//@ func (*Writer).FlushBufferFirstBytes
+//@   requires WriterOK(_this) && !wfailed && outLen <= 0x10000000000
+//@   requires 0 <= count && count <= len(_this.Buffer)
+//@   modifies out, outLen, wfailed
+//@   ensures outLen == old(outLen) + uint64(count)
+//@   ensures forall i uint64 :: i < uint64(count) ==> out[old(outLen)+i] == _this.Buffer[i]
+//@   ensures Frame(out, old(out), old(outLen))
+//@   ensures !wfailed
+//@   ensures outLen <= 0x10000000000
+//@   xensures wfailed
+
+//@ func (*Writer).WriteSingleByte
+//@   use WPATH(_this)
+//@   ensures outLen == old(outLen) + 1 && out[old(outLen)] == b
+
+//@ func (*Writer).WriteType
+//@   use WPATH(_this)
+//@   ensures outLen == old(outLen) + 1 && out[old(outLen)] == byte(t)
+
+//@ func (*Writer).WriteTyped8Bits
+//@   use WPATH(_this)
+//@   ensures outLen == old(outLen) + 2 && out[old(outLen)] == byte(typeValue) && out[old(outLen)+1] == value
+
+//@ func (*Writer).WriteTyped16Bits
+//@   use WPATH(_this)
+//@   ensures outLen == old(outLen) + 3
+//@   ensures out[old(outLen)] == byte(typeValue) && out[old(outLen)+1] == byte(value) && out[old(outLen)+2] == byte(value >> 8)
+
+//@ func (*Writer).WriteTyped32Bits
+//@   use WPATH(_this)
+//@   ensures outLen == old(outLen) + 5 && out[old(outLen)] == byte(typeValue)
+//@   ensures forall i uint64 :: i < 4 ==> out[old(outLen)+1+i] == byte(value >> (8*i))
+
+//@ func (*Writer).WriteTyped64Bits
+//@   use WPATH(_this)
+//@   ensures outLen == old(outLen) + 9 && out[old(outLen)] == byte(typeValue)
+//@   ensures forall i uint64 :: i < 8 ==> out[old(outLen)+1+i] == byte(value >> (8*i))
+
+// Variable-length form: type, byte count, magnitude little-endian without leading zero bytes.
+//@ func (*Writer).WriteTypedInt
+//@   use WPATH(_this)
+//@   ensures outLen == old(outLen) + 2 + cbe.NBytes(value)
+//@   ensures out[old(outLen)] == byte(cbeType) && out[old(outLen)+1] == byte(cbe.NBytes(value))
+//@   ensures forall i uint64 :: i < cbe.NBytes(value) ==> out[old(outLen)+2+i] == byte(value >> (8*i))
+//@   loop 0 unroll 8
+
+//@ func (*Writer).WriteULEB
+//@   use WPATH(_this)
+//@   ensures outLen == old(outLen) + cbe.UlebLen(value)
+//@   ensures forall i uint64 :: i < cbe.UlebLen(value) ==> out[old(outLen)+i] == cbe.UlebByte(value, i)
+
+//@ func (*Writer).WriteFloat16
+//@   use WPATH(_this)
+//@   ensures outLen == old(outLen) + 3 && out[old(outLen)] == 0x70
+//@   ensures out[old(outLen)+1] == byte(bits(value) >> 16) && out[old(outLen)+2] == byte(bits(value) >> 24)
+
+//@ func (*Writer).WriteFloat32
+//@   use WPATH(_this)
+//@   ensures outLen == old(outLen) + 5 && out[old(outLen)] == 0x71
+//@   ensures forall i uint64 :: i < 4 ==> out[old(outLen)+1+i] == byte(bits(value) >> (8*i))
+
+//@ func (*Writer).WriteFloat64
+//@   use WPATH(_this)
+//@   ensures outLen == old(outLen) + 9 && out[old(outLen)] == 0x72
+//@   ensures forall i uint64 :: i < 8 ==> out[old(outLen)+1+i] == byte(bits(value) >> (8*i))
+
+// +0 is the small integer 0 (one byte 00); -0 is the negative 8-bit integer form 69 00.
+//@ func (*Writer).WriteZero
+//@   use WPATH(_this)
+//@   ensures sign >= 0 ==> outLen == old(outLen) + 1 && out[old(outLen)] == 0
+//@   ensures sign < 0 ==> outLen == old(outLen) + 2 && out[old(outLen)] == 0x69 && out[old(outLen)+1] == 0
+
+// Infinities and NaNs use the decimal-float type code 76 followed by the compact-float special
+// forms (82 00 = +inf, 83 00 = -inf, 80 00 = quiet NaN, 81 00 = signalling NaN).
+//@ func (*Writer).WriteInfinity
+//@   use WPATH(_this)
+//@   ensures outLen == old(outLen) + 3 && out[old(outLen)] == 0x76 && out[old(outLen)+2] == 0
+//@   ensures out[old(outLen)+1] == ite(sign < 0, byte(0x83), byte(0x82))
+
+//@ func (*Writer).WriteNaN
+//@   use WPATH(_this)
+//@   ensures outLen == old(outLen) + 3 && out[old(outLen)] == 0x76 && out[old(outLen)+2] == 0
+//@   ensures out[old(outLen)+1] == ite(signaling, byte(0x81), byte(0x80))
+
+//@ func (*Writer).WriteIdentifier
+//@   use WPATH(_this)
+//@   requires b.arr != _this.Buffer.arr
+//@   ensures outLen == old(outLen) + cbe.UlebLen(uint64(len(b))) + uint64(len(b))
+//@   ensures forall i uint64 :: i < cbe.UlebLen(uint64(len(b))) ==> out[old(outLen)+i] == cbe.UlebByte(uint64(len(b)), i)
+//@   ensures forall i uint64 :: i < uint64(len(b)) ==> out[old(outLen)+cbe.UlebLen(uint64(len(b)))+i] == b[i]
+
+//@ func (*Writer).WriteArrayHeaderToBytes
+//@   requires len(_this.Buffer) >= 32 && uint8(arrayType) >= 1 && uint8(arrayType) <= 19
+//@   modifies mem(_this.Buffer)
+//@   ensures result == int(cbe.PlaneLen(uint8(arrayType))) + 1
+//@   ensures cbe.IsPlane7f(uint8(arrayType)) ==> _this.Buffer[0] == 0x7f && _this.Buffer[1] == cbe.ArrayCode(uint8(arrayType))
+//@   ensures !cbe.IsPlane7f(uint8(arrayType)) ==> _this.Buffer[0] == cbe.ArrayCode(uint8(arrayType))
+
+//@ func (*Writer).WriteArrayHeader
+//@   use WPATH(_this)
+//@   cases cbe.IsPlane7f(uint8(arrayType))
+//@   requires uint8(arrayType) >= 1 && uint8(arrayType) <= 19
+//@   ensures outLen == old(outLen) + cbe.PlaneLen(uint8(arrayType)) + 1
+//@   ensures cbe.IsPlane7f(uint8(arrayType)) ==> out[old(outLen)] == 0x7f && out[old(outLen)+1] == cbe.ArrayCode(uint8(arrayType))
+//@   ensures !cbe.IsPlane7f(uint8(arrayType)) ==> out[old(outLen)] == cbe.ArrayCode(uint8(arrayType))
+
+//@ func (*Writer).WriteArrayChunkHeader
+//@   use WPATH(_this)
+//@   ensures outLen == old(outLen) + cbe.UlebLen((elementCount << 1) | moreChunksFollow)
+//@   ensures forall i uint64 :: i < cbe.UlebLen((elementCount << 1) | moreChunksFollow) ==> out[old(outLen)+i] == cbe.UlebByte((elementCount << 1) | moreChunksFollow, i)
+
+//@ func (*Writer).ExpandBufferTo
+//@   requires len(_this.Buffer) >= 32 && minSize >= 0 && minSize <= 0x1000000000
+//@   modifies _this.Buffer, alloc
+//@   ensures len(_this.Buffer) >= 32 && len(_this.Buffer) >= minSize
+//@   ensures _this.Buffer == old(_this.Buffer) || fresh(_this.Buffer)
+
+// The adapter stands in for an io.StringWriter: its contract is the io.StringWriter contract.
+//@ func (*StringWriterAdapter).WriteString
+//@   requires _this.writer != nil && WriterOK(_this.writer) && !wfailed && outLen <= 0x10000000000
+//@   modifies out, outLen, wfailed, alloc, Writer.Buffer, memall(byte)
+//@   ensures err == nil && n == len(str)
+//@   ensures outLen == old(outLen) + uint64(len(str))
+//@   ensures forall i uint64 :: i < uint64(len(str)) ==> out[old(outLen)+i] == str[i]
+//@   ensures Frame(out, old(out), old(outLen))
+//@   ensures !wfailed
+//@   ensures outLen <= 0x10000000000
+//@   xensures wfailed
+
+// ---------------------------------------------------------------------------------------------
+// Encoder: one postcondition per event = the CBE specification's encoding of that event (C01),
+// in its shortest form (C22).
+
+//@ macro EPATH(e)
+//@   requires EncoderOK(e) && !wfailed && outLen <= 0x10000000000
+//@   modifies out, outLen, wfailed, mem(e.writer.Buffer)
+//@   ensures !wfailed
+//@   ensures Frame(out, old(out), old(outLen))
+//@   ensures outLen <= 0x10000000000
+//@   xensures wfailed
+
+//@ macro ONEBYTE(e, code)
+//@   use EPATH(e)
+//@   ensures outLen == old(outLen) + 1 && out[old(outLen)] == code
+
+//@ func fitsInSmallint
+//@   inline
+//@ func fitsInUint8
+//@   inline
+//@ func fitsInUint16
+//@   inline
+//@ func fitsInUint32
+//@   inline
+//@ func fitsInUint48
+//@   inline
+
+//@ func (*Encoder).OnPadding
+//@   use ONEBYTE(_this, 0x95)
+//@ func (*Encoder).OnNull
+//@   use ONEBYTE(_this, 0x7d)
+//@ func (*Encoder).OnTrue
+//@   use ONEBYTE(_this, 0x79)
+//@ func (*Encoder).OnFalse
+//@   use ONEBYTE(_this, 0x78)
+//@ func (*Encoder).OnBoolean
+//@   use ONEBYTE(_this, ite(value, byte(0x79), byte(0x78)))
+//@ func (*Encoder).OnList
+//@   use ONEBYTE(_this, 0x9a)
+//@ func (*Encoder).OnMap
+//@   use ONEBYTE(_this, 0x99)
+//@ func (*Encoder).OnNode
+//@   use ONEBYTE(_this, 0x98)
+//@ func (*Encoder).OnEdge
+//@   use ONEBYTE(_this, 0x97)
+//@ func (*Encoder).OnEndContainer
+//@   use ONEBYTE(_this, 0x9b)
+//@ func (*Encoder).OnBeginDocument
+//@   use ONEBYTE(_this, 0x81)
+
+//@ func (*Encoder).OnComment
+//@   ensures true
+
+//@ func (*Encoder).OnVersion
+//@   use EPATH(_this)
+//@   ensures outLen == old(outLen) + cbe.UlebLen(version)
+//@   ensures forall i uint64 :: i < cbe.UlebLen(version) ==> out[old(outLen)+i] == cbe.UlebByte(version, i)
+
+//@ func (*Encoder).OnPositiveInt
+//@   use EPATH(_this)
+//@   ensures outLen == old(outLen) + cbe.IntLen(false, value)
+//@   ensures forall i uint64 :: i < cbe.IntLen(false, value) ==> out[old(outLen)+i] == cbe.IntByte(false, value, i)
+
+//@ func (*Encoder).OnNegativeInt
+//@   use EPATH(_this)
+//@   ensures outLen == old(outLen) + cbe.IntLen(true, value)
+//@   ensures forall i uint64 :: i < cbe.IntLen(true, value) ==> out[old(outLen)+i] == cbe.IntByte(true, value, i)
+
+// A signed value is the non-negative or negative integer of its magnitude (two's complement
+// negation is exact for every int64 including the minimum, whose magnitude is 2^63).
+//@ func (*Encoder).OnInt
+//@   use EPATH(_this)
+//@   let neg = value < 0
+//@   let mag = ite(value < 0, uint64(0 - value), uint64(value))
+//@   ensures outLen == old(outLen) + cbe.IntLen(neg, mag)
+//@   ensures forall i uint64 :: i < cbe.IntLen(neg, mag) ==> out[old(outLen)+i] == cbe.IntByte(neg, mag, i)
+
+//@ func (*Encoder).OnFloat
+//@   use EPATH(_this)
+//@   ensures isNaN(value) ==> outLen == old(outLen) + 3 && out[old(outLen)] == 0x76 && out[old(outLen)+2] == 0 && out[old(outLen)+1] == ite((bits(value) & 0x0008000000000000) != 0, byte(0x80), byte(0x81))
+//@   ensures isInf(value) ==> outLen == old(outLen) + 3 && out[old(outLen)] == 0x76 && out[old(outLen)+2] == 0 && out[old(outLen)+1] == ite(value < 0, byte(0x83), byte(0x82))
+//@   ensures bits(value) == 0 ==> outLen == old(outLen) + 1 && out[old(outLen)] == 0
+//@   ensures bits(value) == 0x8000000000000000 ==> outLen == old(outLen) + 2 && out[old(outLen)] == 0x69 && out[old(outLen)+1] == 0
+//@   ensures !isNaN(value) && !isInf(value) && value != 0 ==> outLen == old(outLen) + cbe.FloatLen(value)
+//@   ensures !isNaN(value) && !isInf(value) && value != 0 ==> forall i uint64 :: i < cbe.FloatLen(value) ==> out[old(outLen)+i] == cbe.FloatByte(value, i)
+
+//@ func (*Encoder).OnNan
+//@   use EPATH(_this)
+//@   ensures outLen == old(outLen) + 3 && out[old(outLen)] == 0x76 && out[old(outLen)+2] == 0
+//@   ensures out[old(outLen)+1] == ite(signaling, byte(0x81), byte(0x80))
+
+//@ func (*Encoder).OnUID
+//@   use EPATH(_this)
+//@   requires value.arr != _this.writer.Buffer.arr
+//@   ensures outLen == old(outLen) + 1 + uint64(len(value)) && out[old(outLen)] == 0x65
+//@   ensures forall i uint64 :: i < uint64(len(value)) ==> out[old(outLen)+1+i] == value[i]
+
+// Identifier-carrying events: [7f] code, ULEB(length), bytes.
+//@ macro IDENT1(e, code, id)
+//@   use EPATH(e)
+//@   requires id.arr != e.writer.Buffer.arr
+//@   let n = uint64(len(id))
+//@   ensures outLen == old(outLen) + 1 + cbe.UlebLen(n) + n && out[old(outLen)] == code
+//@   ensures forall i uint64 :: i < cbe.UlebLen(n) ==> out[old(outLen)+1+i] == cbe.UlebByte(n, i)
+//@   ensures forall i uint64 :: i < n ==> out[old(outLen)+1+cbe.UlebLen(n)+i] == id[i]
+//@ macro IDENT2(e, code, id)
+//@   use EPATH(e)
+//@   requires id.arr != e.writer.Buffer.arr
+//@   let n = uint64(len(id))
+//@   ensures outLen == old(outLen) + 2 + cbe.UlebLen(n) + n && out[old(outLen)] == 0x7f && out[old(outLen)+1] == code
+//@   ensures forall i uint64 :: i < cbe.UlebLen(n) ==> out[old(outLen)+2+i] == cbe.UlebByte(n, i)
+//@   ensures forall i uint64 :: i < n ==> out[old(outLen)+2+cbe.UlebLen(n)+i] == id[i]
+
+//@ func (*Encoder).OnRecord
+//@   use IDENT1(_this, 0x96, id)
+//@ func (*Encoder).OnReferenceLocal
+//@   use IDENT1(_this, 0x77, id)
+//@ func (*Encoder).OnRecordType
+//@   use IDENT2(_this, 0xf1, id)
+//@ func (*Encoder).OnMarker
+//@   use IDENT2(_this, 0xf0, id)
+
+//@ func (*Encoder).OnRemoteReference
+//@   use EPATH(_this)
+//@   ensures outLen == old(outLen) + 2 && out[old(outLen)] == 0x7f && out[old(outLen)+1] == 0xf2
+
+//@ func (*Encoder).writeSmallArrayHeader
+//@   use EPATH(_this)
+//@   cases cbe.IsPlane7f(uint8(arrayType))
+//@   requires uint8(arrayType) >= 1 && uint8(arrayType) <= 19
+//@   ensures result == cbe.UseShort(uint8(arrayType), elementCount, 0)
+//@   ensures !result ==> outLen == old(outLen)
+//@   ensures result ==> outLen == old(outLen) + cbe.ArrHdrLen(uint8(arrayType), elementCount, 0)
+//@   ensures result ==> cbe.ArrHdrAt(out, old(outLen), uint8(arrayType), elementCount, 0)
+
+//@ func (*Encoder).OnArray
+//@   use EPATH(_this)
+//@   requires value.arr != _this.writer.Buffer.arr
+//@   requires cbe.PlainArrayType(uint8(arrayType)) && elementCount <= 0x7fffffffffffffff
+//@   let t = uint8(arrayType)
+//@   let h = cbe.ArrHdrLen(t, elementCount, 0)
+//@   ensures outLen == old(outLen) + h + uint64(len(value))
+//@   ensures cbe.ArrHdrAt(out, old(outLen), t, elementCount, 0)
+//@   ensures forall i uint64 :: i < uint64(len(value)) ==> out[old(outLen)+h+i] == value[i]
+
+//@ func (*Encoder).OnStringlikeArray
+//@   use EPATH(_this)
+//@   requires cbe.PlainArrayType(uint8(arrayType))
+//@   let t = uint8(arrayType)
+//@   let n = uint64(len(value))
+//@   let h = cbe.ArrHdrLen(t, n, 0)
+//@   ensures outLen == old(outLen) + h + n
+//@   ensures cbe.ArrHdrAt(out, old(outLen), t, n, 0)
+//@   ensures forall i uint64 :: i < n ==> out[old(outLen)+h+i] == value[i]
+
+// Streamed arrays: OnArrayBegin only records the type; the header is written with the first chunk.
+//@ func (*Encoder).OnArrayBegin
+//@   modifies _this.arrayType, _this.trySmallArrayHeader
+//@   ensures _this.arrayType == arrayType && _this.trySmallArrayHeader
+
+//@ func (*Encoder).OnArrayChunk
+//@   use EPATH(_this)
+//@   requires elementCount <= 0x7fffffffffffffff
+//@   requires _this.trySmallArrayHeader ==> uint8(_this.arrayType) >= 1 && uint8(_this.arrayType) <= 19
+//@   modifies _this.trySmallArrayHeader
+//@   let t = uint8(_this.arrayType)
+//@   let more = ite(moreChunksFollow, uint64(1), uint64(0))
+//@   let first = _this.trySmallArrayHeader
+//@   ensures !_this.trySmallArrayHeader
+//@   ensures first ==> outLen == old(outLen) + cbe.ArrHdrLen(t, elementCount, more)
+//@   ensures first ==> cbe.ArrHdrAt(out, old(outLen), t, elementCount, more)
+//@   ensures !first ==> outLen == old(outLen) + cbe.UlebLen((elementCount << 1) | more)
+//@   ensures !first ==> cbe.UlebAt(out, old(outLen), (elementCount << 1) | more)
+
+//@ func (*Encoder).OnArrayData
+//@   use EPATH(_this)
+//@   ensures outLen == old(outLen) + uint64(len(data))
+//@   ensures forall i uint64 :: i < uint64(len(data)) ==> out[old(outLen)+i] == data[i]
+
+//@ func (*Encoder).OnMediaBegin
+//@   use EPATH(_this)
+//@   modifies _this.arrayType, _this.trySmallArrayHeader
+//@   let n = uint64(len(mediaType))
+//@   ensures !_this.trySmallArrayHeader && _this.arrayType == events.ArrayTypeMedia
+//@   ensures outLen == old(outLen) + 2 + cbe.UlebLen(n) + n && out[old(outLen)] == 0x7f && out[old(outLen)+1] == 0xf3
+//@   ensures forall i uint64 :: i < cbe.UlebLen(n) ==> out[old(outLen)+2+i] == cbe.UlebByte(n, i)
+//@   ensures forall i uint64 :: i < n ==> out[old(outLen)+2+cbe.UlebLen(n)+i] == mediaType[i]
+
+//@ func (*Encoder).OnCustomBegin
+//@   use EPATH(_this)
+//@   modifies _this.arrayType, _this.trySmallArrayHeader
+//@   ensures !_this.trySmallArrayHeader && _this.arrayType == events.ArrayTypeCustomBinary
+//@   ensures outLen == old(outLen) + 1 + cbe.UlebLen(customType) && out[old(outLen)] == 0x92
+//@   ensures forall i uint64 :: i < cbe.UlebLen(customType) ==> out[old(outLen)+1+i] == cbe.UlebByte(customType, i)
+
+//@ func (*Encoder).OnCustomBinary
+//@   use EPATH(_this)
+//@   requires value.arr != _this.writer.Buffer.arr
+//@   requires uint64(len(value)) <= 0x7fffffffffffffff
+//@   let c = cbe.UlebLen(customType)
+//@   let n = uint64(len(value))
+//@   let k = cbe.UlebLen(n << 1)
+//@   ensures outLen == old(outLen) + 1 + c + k + n && out[old(outLen)] == 0x92
+//@   ensures forall i uint64 :: i < c ==> out[old(outLen)+1+i] == cbe.UlebByte(customType, i)
+//@   ensures forall i uint64 :: i < k ==> out[old(outLen)+1+c+i] == cbe.UlebByte(n << 1, i)
+//@   ensures forall i uint64 :: i < n ==> out[old(outLen)+1+c+k+i] == value[i]
+
+//@ func (*Encoder).OnMedia
+//@   use EPATH(_this)
+//@   requires value.arr != _this.writer.Buffer.arr
+//@   modifies _this.arrayType, _this.trySmallArrayHeader
+//@   let m = uint64(len(mediaType))
+//@   let n = uint64(len(value))
+//@   let k = cbe.UlebLen(n << 1)
+//@   let h = 2 + cbe.UlebLen(m) + m
+//@   ensures outLen == old(outLen) + h + k + n && out[old(outLen)] == 0x7f && out[old(outLen)+1] == 0xf3
+//@   ensures forall i uint64 :: i < cbe.UlebLen(m) ==> out[old(outLen)+2+i] == cbe.UlebByte(m, i)
+//@   ensures forall i uint64 :: i < m ==> out[old(outLen)+2+cbe.UlebLen(m)+i] == mediaType[i]
+//@   ensures forall i uint64 :: i < k ==> out[old(outLen)+h+i] == cbe.UlebByte(n << 1, i)
+//@   ensures forall i uint64 :: i < n ==> out[old(outLen)+h+k+i] == value[i]
+
+//@ func (*Encoder).OnCustomText
+//@   panics true
+
+//@ func (*Encoder).OnError
+//@   ensures true
